@@ -36,7 +36,8 @@ def plan(tier):
     return {"shards": 16, "budget_s": 40 if tier == "quick" else 600,
             "required_counters": ["figures", "body_vertices_checked", "extent_checks", "conductor_checks",
                                   "path_trace_checks", "glyph_checks", "nonmodification_checks", "bad_kwarg_cases", "mpl_figures",
-                                  "animated_figures", "animation_frames_checked", "animations_with_subsampled_path"]
+                                  "animated_figures", "animation_frames_checked", "animations_with_subsampled_path",
+                                  "failing_trace_raised", "nested_collections_drawn"]
             + ["cls:" + c for c in CLASSES]}
 
 
@@ -44,6 +45,12 @@ def gen_obj(rng, cls, L, scale):
     if cls == "Collection":
         kids = [gen_obj(rng, str(rng.choice(["Cuboid", "Sphere", "Cylinder"])), L, scale) for _ in range(2)]
         P, Q = objs.rand_path(rng, L, 1.0)
+        if rng.random() < 0.5:   # nesting: one member sits two (or three) collection levels deep
+            P2, Q2 = objs.rand_path(rng, L, 1.0)
+            inner = {"cls": "Collection", "children": [kids[1]], "position": (np.array(P2) * scale).tolist(), "orientation": Q2}
+            if rng.random() < 0.3:
+                inner = {"cls": "Collection", "children": [inner], "position": (np.array(P2) * scale).tolist(), "orientation": Q2}
+            kids = [kids[0], inner]
         return {"cls": "Collection", "children": kids, "position": (np.array(P) * scale).tolist(), "orientation": Q}
     if cls == "Sensor":
         s = objs.rand_sensor(rng, path_len=L, pixel=None)
@@ -170,7 +177,9 @@ def check_obj(ctx, case, spec, traces, unit, key):
         ok = True
         mesh = [trace_points(t) * unit for t in traces if t.type == "mesh3d"]
         pts = np.concatenate(mesh) if mesh else np.zeros((0, 3))
-        kids = [k for k in spec["children"]]
+        kids = [k for k in objs.leaves(spec) if k["cls"] != "Sensor"]   # members at every depth
+        if any(k["cls"] == "Collection" for k in spec["children"]):
+            ctx.count("nested_collections_drawn")
         if len(pts):
             d = np.array([min_dist_any_index(k, pts) for k in kids])
             size = max(objs.size_of(k) for k in kids)
@@ -459,6 +468,42 @@ def check_case(ctx, case):
             check_obj(ctx, case, s, traces, unit, key)
         except Exception as e:
             ctx.inconclusive_case("draw model failed: " + repr(e)[:200], {"cls": s["cls"]})
+    # show() that fails while the traces are being generated (a user supplied extra 3d-model trace whose data is
+    # incomplete at display time) must not leave the temporary display style on the objects
+    if ctx.rng.random() < 0.12:
+        ctx.count("failing_trace_cases")
+        state = {"ready": True}
+
+        def trace_kwargs():
+            kw = {"x": [0, 1], "y": [0, 1]}
+            if state["ready"]:
+                kw["z"] = [0, 1]
+            return kw
+        victim = objects[int(ctx.rng.integers(0, len(objects)))]
+        try:
+            with quiet():
+                victim.style.model3d.add_trace(backend="generic", constructor="scatter3d", kwargs=trace_kwargs)
+            state["ready"] = False
+            before2 = (D.digest_many(objects), D.digest_defaults())
+            raised2 = None
+            try:
+                with quiet():
+                    magpy.show(*objects, backend="plotly", return_fig=True, style_opacity=0.3)
+            except Exception as e:
+                raised2 = e
+            if raised2 is None:
+                ctx.count("failing_trace_did_not_fail")
+            else:
+                ctx.count("failing_trace_raised")
+            after2 = (D.digest_many(objects), D.digest_defaults())
+            if after2 != before2:
+                ctx.violation({"kind": "failing-show-modified-objects-or-defaults", "how": "trace generation raised"}, case,
+                              {"objects": D.diff(before2[0], after2[0]), "defaults": D.diff(before2[1], after2[1]),
+                               "raised": exc_info(raised2) if raised2 else None})
+                return
+        except Exception as e:
+            ctx.inconclusive_case("failing-trace setup: " + repr(e)[:120], None)
+        return
     # show() with a bad keyword must not modify anything either
     if ctx.rng.random() < 0.15:
         ctx.count("bad_kwarg_cases")
